@@ -39,7 +39,7 @@ impl Prop for C15 {
         "C15"
     }
     fn rule(&self) -> String {
-        "chains of 1..40 blocks (thorough: one family with ~4300 blocks of ~1 MiB so the block-size sum passes 2^32) x 8 coins, a random subset of script types present, non-monotonic timestamps incl. gaps summing past 2^32, ties for both maxima (equal values / equal sizes: the first must win), coinbases paying below/at/above the subsidy at heights around 0 and 209999/210000/420000 (index segments run with --start), sub-ranges; perturbed worker counts and read chunking. Excluded because the statement does not cover them: timestamp 0, heights beyond 64 halvings, coinbases without outputs, totals beyond 2^64. Oracle: integer figures exact; decimal renderings within half a unit in the last place (+1e-12 relative) of the exact rational value. Non-trivial = report parsed and >=2 blocks; distinct by scenario hash.".into()
+        "chains of 1..40 blocks (thorough: one family with ~4300 blocks of ~1 MiB so the block-size sum passes 2^32) x 8 coins, a random subset of script types present, non-monotonic timestamps incl. gaps summing past 2^32, ties for both maxima (equal values / equal sizes: the first must win), coinbases paying below/at/above the subsidy at heights around 0 and 209999/210000/420000 (index segments run with --start), sub-ranges; perturbed worker counts and read chunking. blocks without any transaction (never with --verify); Excluded because the statement does not cover them: timestamp 0, heights beyond 64 halvings, coinbases without outputs, totals beyond 2^64. Oracle: integer figures exact; decimal renderings within half a unit in the last place (+1e-12 relative) of the exact rational value. Non-trivial = report parsed and >=2 blocks; distinct by scenario hash.".into()
     }
     fn items(&self, tier: Tier) -> u64 {
         if tier == Tier::Quick {
@@ -56,7 +56,7 @@ impl Prop for C15 {
         }
     }
     fn required_probes(&self, tier: Tier) -> Vec<&'static str> {
-        let mut v = vec!["gap_sum_over_u32", "non_monotonic_timestamps", "tie_for_biggest_value", "tie_for_biggest_size", "coinbase_above_subsidy", "coinbase_below_subsidy", "height_around_halving", "sub_range", "coinbase_shaped_tx_not_first"];
+        let mut v = vec!["gap_sum_over_u32", "non_monotonic_timestamps", "tie_for_biggest_value", "tie_for_biggest_size", "coinbase_above_subsidy", "coinbase_below_subsidy", "height_around_halving", "sub_range", "coinbase_shaped_tx_not_first", "block_without_transactions_inside_range"];
         if tier == Tier::Thorough {
             v.push("block_size_sum_over_u32");
         }
@@ -95,6 +95,7 @@ impl Prop for C15 {
         let tie_value = rng.chance(1, 3);
         let tie_size = rng.chance(1, 3);
         let big_gaps = rng.chance(1, 3);
+        let empty_blocks = nb >= 3 && rng.chance(1, 8);
         let mut ts: u32 = 1_300_000_000;
         for i in 0..nb {
             let hh = base + i as u64;
@@ -197,6 +198,11 @@ impl Prop for C15 {
                     },
                 );
             }
+            // a block that carries no transaction at all (parses; only --verify would object): its
+            // size, timestamp and gap still count
+            if empty_blocks && i > 0 && i + 1 < nb && rng.chance(1, 3) {
+                txs.clear();
+            }
             // timestamps: mostly increasing, sometimes going back, sometimes huge gaps
             ts = match rng.below(9) {
                 8 => ts, // equal timestamps: a gap of exactly 0
@@ -240,7 +246,8 @@ impl Prop for C15 {
             }
             scn.runs.push(r2);
         }
-        super::dress(&mut scn, rng, true);
+        let has_empty = scn.chain.iter().any(|b| b.txs.is_empty());
+        super::dress(&mut scn, rng, !has_empty);
         h.check(&mut scn)?;
         Ok(())
     }
@@ -273,6 +280,9 @@ impl Prop for C15 {
             let mut vals: Vec<u128> = vec![];
             let mut sizes: Vec<u64> = vec![];
             for bi in m.idx_range(s, e) {
+                if scn.chain[bi].txs.is_empty() && bi as u64 + scn.base_height > s && bi as u64 + scn.base_height < e {
+                    st.probe("block_without_transactions_inside_range");
+                }
                 let hh = scn.base_height + bi as u64;
                 let subsidy = if hh / 210000 >= 64 { 0 } else { (50u64 * 100_000_000) >> (hh / 210000) };
                 for (ti, t) in scn.chain[bi].txs.iter().enumerate() {
